@@ -52,7 +52,6 @@ int main(int argc, char** argv) {
     std::unique_ptr<JacPeek> ev, ev2;
     std::map<const TreeData*, int> varidx;
     std::map<Tree::Id, float> varvals;
-    const size_t LANES = 40;
 
     auto slots = [&](JacPeek& e) {
         std::ostringstream o;
@@ -141,16 +140,6 @@ int main(int argc, char** argv) {
                       << " csimd " << ev->csimd() << "\n";
             std::cout << "ftape " << dumpTape(*h.second) << "\n";
             std::cout << slots(*ev) << "\n";
-            // scratch the array-wise paths may read without writing: v(id, lane>=1) and d(id).col(lane)
-            std::cout << "stale " << LANES;
-            for (auto it = h.second->rbegin(); it != h.second->rend(); ++it) {
-                if (it->op == Opcode::OP_MIN || it->op == Opcode::OP_MAX) continue;
-                std::cout << " C " << it->id;
-                for (size_t l = 0; l < LANES; ++l)
-                    std::cout << " " << hex(ev->val(it->id, l)) << " " << hex(ev->der(it->id, 0, l)) << " "
-                              << hex(ev->der(it->id, 1, l)) << " " << hex(ev->der(it->id, 2, l));
-            }
-            std::cout << "\n";
             std::vector<Clause> cl(h.second->rbegin(), h.second->rend());
             size_t froot = h.second->root();
             h.second.reset();
